@@ -96,6 +96,9 @@ func (e *Eval) call(fr *frame, x *ssa.Call, st State) AV {
 	if callee.Pkg != nil && e.P.InModule(callee.Pkg) || (callee.Parent() != nil && callee.Parent().Pkg != nil && e.P.InModule(callee.Parent().Pkg)) {
 		if len(callee.Blocks) > 0 {
 			res, out := e.evalFunc(callee, args, bindings, st, fr.depth+1, false)
+			if gr, gs, ok := e.guardedResult(x, callee, e.lastRets); ok {
+				res, out = gr, gs
+			}
 			// the callee worked on the same state map semantics: copy back
 			for k := range st {
 				delete(st, k)
@@ -131,6 +134,11 @@ func (e *Eval) resolveBytes(b BytesV, st State) BytesV {
 		if bc, ok := st[b.Obj].(BufC); ok {
 			r := bc.B
 			r.Obj = b.Obj
+			if r.Pending != nil {
+				// not (yet) known to be on the path where the filling call succeeded
+				r.HasVal, r.Val = false, nil
+				r.Src = "⊤: valid only if the call that fills it succeeded (" + r.Src + ")"
+			}
 			return r
 		}
 	}
@@ -171,6 +179,66 @@ func (e *Eval) builtin(fr *frame, x *ssa.Call, name string, args []AV, st State)
 		if d, ok := args[0].(BytesV); ok {
 			if d.Param != nil {
 				e.event("F4", Violated, x, "append to caller-owned slice %s may write into its spare capacity", d.Param.Name())
+			}
+			// bytes of strings: append([]byte(a), b...) is the bytes of a+b
+			strOf := func(v AV) (StrV, bool) {
+				switch y := v.(type) {
+				case StrV:
+					return y, true
+				case BytesV:
+					yy := e.resolveBytes(y, st)
+					if yy.Str != nil {
+						if sv, ok := yy.Str.(StrV); ok {
+							return sv, true
+						}
+					}
+					if yy.LenKnown && yy.Len == K(0) {
+						return CStr(""), true
+					}
+				}
+				return StrV{}, false
+			}
+			if s0, ok0 := strOf(args[0]); ok0 {
+				if s1, ok1 := strOf(args[1]); ok1 {
+					var parts []AV
+					for _, sv := range []StrV{s0, s1} {
+						switch {
+						case sv.Kind == skConst && sv.S == "":
+						case sv.Kind == skConcat:
+							parts = append(parts, sv.Parts...)
+						default:
+							parts = append(parts, sv)
+						}
+					}
+					switch len(parts) {
+					case 0:
+						return BytesV{Src: "conv", Str: CStr(""), LenKnown: true, Len: K(0)}
+					case 1:
+						return BytesV{Src: "conv", Str: parts[0]}
+					}
+					return BytesV{Src: "conv", Str: StrV{Kind: skConcat, Parts: parts}}
+				}
+			}
+			// concatenation of two byte strings with known content
+			a0 := e.resolveBytes(d, st)
+			var a1 BytesV
+			switch y := args[1].(type) {
+			case BytesV:
+				a1 = e.resolveBytes(y, st)
+			case NilV:
+				a1 = BytesV{LenKnown: true, Len: K(0), HasVal: true}
+			}
+			if a0.LenKnown && a0.Len.Const() && a1.LenKnown && a1.Len.Const() && a0.HasVal && a1.HasVal && !a0.Min && !a1.Min {
+				var out Layout
+				out = append(out, a1.Val.Norm()...)
+				if w, _ := a1.Val.Width(); w < 8*a1.Len.A {
+					out = append(out, Field{W: K(8*a1.Len.A - w)})
+				}
+				out = append(out, a0.Val...)
+				return BytesV{LenKnown: true, Len: K(a0.Len.A + a1.Len.A), HasVal: true, Val: out.Norm(), Src: "append"}
+			}
+			if a0.LenKnown && a1.LenKnown {
+				return BytesV{LenKnown: true, Len: a0.Len.Add(a1.Len), Src: "⊤: append"}
 			}
 			return BytesV{Src: "⊤: append"}
 		}
@@ -289,6 +357,9 @@ func (e *Eval) model(fr *frame, x *ssa.Call, callee *ssa.Function, args []AV, st
 	if strings.HasPrefix(name, "(*math/big.Int).") {
 		return ret(e.bigMethod(fr, x, callee.Name(), args, st))
 	}
+	if strings.HasPrefix(name, "(*strings.Builder).") {
+		return ret(e.sbMethod(fr, x, callee.Name(), args, st))
+	}
 	switch name {
 	case "math/big.NewInt":
 		o := e.newObj(okBig, x, "big.NewInt")
@@ -326,6 +397,8 @@ func (e *Eval) model(fr *frame, x *ssa.Call, callee *ssa.Function, args []AV, st
 		}
 		if e.Ctx != nil && e.Ctx.TokCount != nil {
 			t.N = CInt(*e.Ctx.TokCount)
+		} else if e.Ctx != nil && e.Ctx.SizeRange != nil && e.Ctx.SizeKind == "N" {
+			t.N = RangeInt(e.Ctx.SizeRange[0], e.Ctx.SizeRange[1])
 		}
 		return ret(t)
 	case "(golang.org/x/text/unicode/norm.Form).String":
@@ -347,6 +420,19 @@ func (e *Eval) model(fr *frame, x *ssa.Call, callee *ssa.Function, args []AV, st
 			}
 		}
 		return ret(TopStr("normalisation form other than NFKD of " + shortAV(args[1])))
+	case "(golang.org/x/text/unicode/norm.Form).Bytes":
+		if f, ok := args[0].(IntV); ok {
+			if c, ok := f.Const(); ok && c == int64(norm.NFKD) {
+				if b, ok := args[1].(BytesV); ok && b.Str != nil {
+					inner := b.Str
+					if sv, ok := inner.(StrV); ok && sv.Kind == skConst {
+						return ret(BytesV{Src: "conv", Str: CStr(norm.NFKD.String(sv.S))})
+					}
+					return ret(BytesV{Src: "conv", Str: StrV{Kind: skNFKD, X: inner}})
+				}
+			}
+		}
+		return ret(BytesV{Src: "⊤: normalisation of " + shortAV(args[1])})
 	case "errors.New":
 		s, _ := args[0].(StrV)
 		return ret(ErrV{Kind: ekFresh, Format: s.S, Site: x})
@@ -362,6 +448,7 @@ func (e *Eval) model(fr *frame, x *ssa.Call, callee *ssa.Function, args []AV, st
 	case "strconv.Itoa":
 		return ret(StrV{Kind: skDecimal, X: args[0]})
 	case "io.ReadFull", "io.ReadAtLeast":
+		info := ReadInfo{Callee: name, Reader: args[0], Instr: x}
 		if b, ok := args[1].(BytesV); ok && b.Obj != nil {
 			cur := e.resolveBytes(b, st)
 			full := name == "io.ReadFull"
@@ -371,16 +458,29 @@ func (e *Eval) model(fr *frame, x *ssa.Call, callee *ssa.Function, args []AV, st
 				}
 			}
 			whole := b.LenKnown && cur.LenKnown && b.Len == cur.Len
-			n := BytesV{LenKnown: cur.LenKnown, Len: cur.Len, Src: "read(" + args[0].String() + ")"}
+			fresh := cur.Src == "zero" && b.Obj.Kind == okBuf
+			info.Full, info.Whole, info.Fresh = full, whole, fresh
+			n := BytesV{LenKnown: cur.LenKnown, Len: cur.Len, Src: "⊤: partially filled by " + name}
 			if full && whole && cur.LenKnown && cur.Len.Const() {
+				// the buffer holds exactly the bytes delivered — on the path where the error is nil
+				n.Src = "read(" + args[0].String() + ")"
 				n.HasVal, n.Val = true, SymL("E", 8*cur.Len.A)
-			} else {
-				n.Src = "⊤: partially filled by " + name
+				n.Pending = x
 			}
 			e.setContent(fr, st, b.Obj, BufC{n})
 		} else {
 			e.escape(fr, st, args[1], name)
 		}
+		e.Reads = append(e.Reads, info)
+		// what the current path knows about this call's error: nothing yet (present on every
+		// path from here on, so that a merge of tested and untested paths forgets it)
+		if e.errObj == nil {
+			e.errObj = map[ssa.Instruction]*Obj{}
+		}
+		if e.errObj[x] == nil {
+			e.errObj[x] = e.newObj(okCell, x, "outcome of "+name)
+		}
+		e.setContentFresh(st, e.errObj[x], CellC{BoolV{}})
 		return ret(TupleV{RangeInt(0, 1<<31), ErrV{Kind: ekFrom, From: name, Site: x}})
 	case "golang.org/x/crypto/pbkdf2.Key":
 		r := BytesV{Src: "pbkdf2.Key"}
@@ -541,6 +641,21 @@ func (e *Eval) bigMethod(fr *frame, x *ssa.Call, m string, args []AV, st State) 
 			return set(args[0], BigLayout(l.Shl(n.L)))
 		}
 		if !n.L.Const() {
+			// a window at an offset that moves with the loop counter: keep a reference to the
+			// (loop-invariant) value and resolve the offset per position when the loop is summarised
+			if !termMentionsX(l) && !l.DependsOnT() {
+				if e.refs == nil {
+					e.refs = map[string]Layout{}
+				}
+				name := fmt.Sprintf("R%d", len(e.refs)+1)
+				for k, v := range e.refs {
+					if v.Equal(l) {
+						name = k
+					}
+				}
+				e.refs[name] = l.Norm()
+				return set(args[0], BigLayout(Layout{{W: K(INF), Sym: name, Lo: n.L}}))
+			}
 			return set(args[0], BigTop("Rsh by a count that varies"))
 		}
 		if r, ok := l.Shr(n.L.A); ok {
@@ -695,4 +810,196 @@ func joinOfListWords(a *ArrC) bool {
 		}
 	}
 	return true
+}
+
+
+// sbMethod models strings.Builder.
+func (e *Eval) sbMethod(fr *frame, x *ssa.Call, m string, args []AV, st State) AV {
+	p, ok := args[0].(PtrV)
+	if !ok || p.O == nil || p.O.Kind != okSB {
+		return e.topOf(x.Type(), "strings.Builder."+m)
+	}
+	c, _ := st[p.O].(SBC)
+	add := func(v AV) {
+		if c.Top != "" {
+			e.setContent(fr, st, p.O, c)
+			return
+		}
+		e.setContent(fr, st, p.O, SBC{Parts: append(append([]SBPart{}, c.Parts...), SBPart{V: v})})
+	}
+	switch m {
+	case "WriteString":
+		add(args[1])
+		return TupleV{RangeInt(0, 1<<31), ErrV{Kind: ekNil}}
+	case "WriteByte", "WriteRune":
+		if iv, ok := args[1].(IntV); ok {
+			if cst, ok := iv.Const(); ok && cst >= 0 && cst < 0x110000 {
+				add(CStr(string(rune(cst))))
+				if m == "WriteByte" {
+					return ErrV{Kind: ekNil}
+				}
+				return TupleV{RangeInt(0, 4), ErrV{Kind: ekNil}}
+			}
+		}
+		add(TopStr("byte written to builder"))
+		if m == "WriteByte" {
+			return ErrV{Kind: ekNil}
+		}
+		return TupleV{RangeInt(0, 4), ErrV{Kind: ekNil}}
+	case "Write":
+		add(TopStr("bytes written to builder"))
+		return TupleV{RangeInt(0, 1<<31), ErrV{Kind: ekNil}}
+	case "Grow":
+		return TupleV{}
+	case "Reset":
+		e.setContent(fr, st, p.O, SBC{})
+		return TupleV{}
+	case "Len", "Cap":
+		return RangeInt(0, 1<<31)
+	case "String":
+		return sbString(c)
+	}
+	e.setContent(fr, st, p.O, SBC{Top: "unmodelled method " + m})
+	return e.topOf(x.Type(), "strings.Builder."+m)
+}
+
+// sbString renders the builder content; word/separator alternations become a Join.
+func sbString(c SBC) AV {
+	if c.Top != "" {
+		return TopStr("builder: " + c.Top)
+	}
+	var parts []AV
+	for _, p := range c.Parts {
+		if p.Cond != nil || p.X != "" {
+			return TopStr("builder content with unresolved conditional parts")
+		}
+		parts = append(parts, p.V)
+	}
+	if len(parts) == 0 {
+		return CStr("")
+	}
+	// w0 sep w1 sep ... w(n-1)
+	if len(parts) >= 3 && len(parts)%2 == 1 {
+		sep, okSep := parts[1].(StrV)
+		good := okSep && sep.Kind == skConst
+		var words []AV
+		for i, p := range parts {
+			if i%2 == 1 {
+				if s, ok := p.(StrV); !ok || s.String() != sep.String() {
+					good = false
+				}
+			} else {
+				if s, ok := p.(StrV); !ok || s.Kind != skElem {
+					good = false
+				}
+				words = append(words, p)
+			}
+		}
+		if good {
+			return StrV{Kind: skJoin, Arr: &ArrC{N: CInt(int64(len(words))), Elems: words}, Sep: sep}
+		}
+	}
+	allConst := true
+	var sb strings.Builder
+	for _, p := range parts {
+		if s, ok := p.(StrV); ok && s.Kind == skConst {
+			sb.WriteString(s.S)
+		} else {
+			allConst = false
+		}
+	}
+	if allConst {
+		return CStr(sb.String())
+	}
+	return StrV{Kind: skConcat, Parts: parts}
+}
+
+
+// ReadInfo describes one evaluated call that fills a buffer from a reader.
+type ReadInfo struct {
+	Callee string
+	Reader AV
+	Instr  ssa.Instruction
+	Full   bool // guarantees a completely filled buffer on success
+	Whole  bool // the target is the whole buffer
+	Fresh  bool // the buffer came straight from make([]byte, n)
+}
+
+
+// guardedResult keeps the correlation "other results are valid iff the error is nil" across a
+// call of a module function returning (…, error): if its returns split into some with a nil
+// error and some with a certainly non-nil error, the call behaves like a library call whose
+// error decides which of the two states holds; buffers that differ between the two are marked
+// as valid only on the nil path (resolved when the caller tests the error).
+func (e *Eval) guardedResult(x *ssa.Call, callee *ssa.Function, rets []retRec) ([]AV, State, bool) {
+	sig := callee.Signature.Results()
+	if sig.Len() < 2 || !isErrorType(sig.At(sig.Len()-1).Type()) || len(rets) < 2 {
+		return nil, nil, false
+	}
+	var okV, errV []AV
+	var okS, errS State
+	for _, r := range rets {
+		if len(r.vals) != sig.Len() {
+			return nil, nil, false
+		}
+		ev, _ := r.vals[len(r.vals)-1].(ErrV)
+		switch {
+		case ev.Kind == ekNil:
+			if okV == nil {
+				okV, okS = append([]AV{}, r.vals...), r.st.clone()
+			} else {
+				for i := range okV {
+					okV[i] = joinAV(okV[i], r.vals[i])
+				}
+				okS = joinStates(okS, r.st)
+			}
+		case ev.Kind == ekFresh || ev.Kind == ekSentinel || ev.Kind == ekWrap || ev.NonNil:
+			if errV == nil {
+				errV, errS = append([]AV{}, r.vals...), r.st.clone()
+			} else {
+				for i := range errV {
+					errV[i] = joinAV(errV[i], r.vals[i])
+				}
+				errS = joinStates(errS, r.st)
+			}
+		default:
+			return nil, nil, false
+		}
+	}
+	if okV == nil || errV == nil {
+		return nil, nil, false
+	}
+	if e.errObj == nil {
+		e.errObj = map[ssa.Instruction]*Obj{}
+	}
+	if e.errObj[x] == nil {
+		e.errObj[x] = e.newObj(okCell, x, "outcome of "+callee.Name())
+	}
+	out := State{}
+	for o, c := range okS {
+		ec, inErr := errS[o]
+		switch {
+		case inErr && c.String() == ec.String():
+			out[o] = c
+		default:
+			if bc, ok := c.(BufC); ok && bc.B.Pending == nil {
+				b := bc.B
+				b.Pending = x
+				out[o] = BufC{b}
+			} else if !inErr {
+				out[o] = c // created on the success path only
+			} else {
+				out[o] = topContent(o, "differs between the success and the failure return")
+			}
+		}
+	}
+	for o, c := range errS {
+		if _, ok := out[o]; !ok {
+			out[o] = c
+		}
+	}
+	out[e.errObj[x]] = CellC{BoolV{}}
+	res := append([]AV{}, okV...)
+	res[len(res)-1] = ErrV{Kind: ekFrom, From: fnKey(callee), Site: x}
+	return res, out, true
 }
